@@ -46,6 +46,9 @@ THEOREMS = [
     'Tbox.C17.C17_repeat_count_width', 'Tbox.C17.C17_repeat_count_narrowing_counterexample', 'Tbox.C17.C17_sleep_deadline_width',
     'Tbox.C17.C17_sleep_deadline_wrap_counterexample', 'Tbox.C17.C17_finish_time_fits',
     'Tbox.C17.C17_timeout_fires', 'Tbox.C17.C17_fine_schedule_timer_phase', 'Tbox.C17.C17_fine_schedule_on_race_tree',
+    # round 10: documented order of a parallel node = its children's, batch form of the embedding lemma (several notifications in one batch)
+    'Tbox.C17.C17_result_matches_doc_par_leaves_visit', 'Tbox.C17.visitAll_leaves', 'Tbox.C17.C17_batch_embed', 'Tbox.C17.C17_batch_embed_generalises',
+    'Tbox.C17.runItems_embed', 'Tbox.C17.runQueue_embed_batch',
     # the inductive steps themselves
     'Tbox.C17.bstep_inv', 'Tbox.C17.step_wf', 'Tbox.C17.reachable_wf', 'Tbox.C17.seq_drive_aux',
 ]
@@ -68,7 +71,7 @@ TRUSTED = [
     'the Trace vectors, labels, vars() and toJson of actions are not modelled; reasons are modelled by their code',
 ]
 ASSUMPTIONS = [
-    'control calls (start/pause/resume/stop/reset) are made on the root only, from the loop thread: from outside (do / defer) or from inside the callbacks of the ROOT (final: synchronous inside finish()/stop(); finish, block: from the loop) — these are modelled; control calls on the root from call-outs of INNER nodes (FunctionAction bodies, final callbacks of inner composites; op `icb`) are run in free mode: not predicted by the model, the harness evaluates the prediction-free clauses (nothing under way below an ended action, finish notification once per run and only while Finished, block notification not while Idle/Stoped, final callback only on an ended action, root not under way / Idle at the end of an op whose last call was stop() / reset(), no Running composite without a child under way once settled); control calls on inner nodes (misuse: the parent keeps its own bookkeeping) are not generated',
+    'control calls (start/pause/resume/stop/reset) are made on the root only, from the loop thread: from outside (do / defer) or from inside the callbacks of the ROOT (final: synchronous inside finish()/stop(); finish, block: from the loop) — these are modelled; control calls on the root from call-outs of INNER nodes (FunctionAction bodies, final callbacks of inner composites; op `icb`) are run in free mode: not predicted by the model, the harness evaluates the prediction-free clauses (nothing under way below an ended action, finish notification once per run and only while Finished, block notification not while Idle/Stoped, final callback only on an ended action, root not under way / Idle at the end of an op whose last call was stop() / reset(), no Running composite without a child under way once settled; and - ops mark / cmpfresh - a run that began with reset() + start() on the root, from outside or from inside any call-out, followed by loop passes and clock steps only, ends in the end state of the control-free run of the freshly built tree: same state()/result() of every node, same number of calls of every function leaf, same finish notifications; compared only for trees without Sleep-versus-timeout races); control calls on inner nodes (misuse: the parent keeps its own bookkeeping) are not generated',
     'a DummyAction leaf is completed / blocked by its owner only while it is running',
     'no two armed timers share a deadline (durations are 100k + a residue unique per node, clock steps are multiples of 100 ms; the raw-millisecond families Zr<ms> / @r<ms> / advr / advdo are written so that deadlines stay distinct)',
     'durations and clock values stay below 2^43 + 4*10^11 ms (steady_clock time points are int64 nanoseconds: C17_finish_time_fits); every case starts at the same virtual instant',
@@ -76,7 +79,7 @@ ASSUMPTIONS = [
     'ActionExecutor: its actions are leaves (dummy / function / pre-stopped); callbacks do not call back into the executor; destruction is exercised only between cases',
     'run ids do not wrap (2^63 deferred tasks)',
 ]
-RULE = ('(round 9: width families - sleeps / timeouts of B-1, B, B+1 ms for B = 2^15 2^16 2^31 2^32 2^42 and 0 driven to 1 ms before and across the deadline, with pause/resume on both sides; RepeatAction counts 0 1 2 3 2^16+1 2^31+1 2^32-1 2^32 2^32+1 2^63+1 2^64-1; 3*10^4 (thorough: 10^5) synchronous loop iterations with the exact call count; late passes `advdo` (clock moves between timer phase and control calls: negative remaining span); call-outs from function bodies on ancestors other than the root, free mode) (re-entrant control: one-shot scripts start/pause/resume/stop/reset attached to the final / finish / block callback of the root, exhaustively over small trees x scripts x one control call, and in random scripts) random action trees (depth <= 4, <= 40 nodes, all 10 composites and all their modes, leaves Function succ/fail(+case tag), Sleep, Dummy, '
+RULE = ('(round 10: re-entrant restart family - for every composite kind (Sequence Parallel IfElse IfThen Switch Loop LoopIf Repeat Wrapper Composite, as root, below a Sequence, below a Parallel) over composite children: the root is reset() and start()ed again from the final callback of every inner composite and from the body of every function leaf (first and second invocation), triggered by the natural end of the child, by a sibling ending its Parallel parent, by the timeout of the parent, by stop() from outside; op `mark` records the end state of the control-free run of the freshly built tree, op `cmpfresh` compares the end state of the restarted run with it: state and result of every node, number of calls of every function leaf, finish notifications of the root; plus 300 (thorough 3000) random trees x scripts x emits) (round 9: width families - sleeps / timeouts of B-1, B, B+1 ms for B = 2^15 2^16 2^31 2^32 2^42 and 0 driven to 1 ms before and across the deadline, with pause/resume on both sides; RepeatAction counts 0 1 2 3 2^16+1 2^31+1 2^32-1 2^32 2^32+1 2^63+1 2^64-1; 3*10^4 (thorough: 10^5) synchronous loop iterations with the exact call count; late passes `advdo` (clock moves between timer phase and control calls: negative remaining span); call-outs from function bodies on ancestors other than the root, free mode) (re-entrant control: one-shot scripts start/pause/resume/stop/reset attached to the final / finish / block callback of the root, exhaustively over small trees x scripts x one control call, and in random scripts) random action trees (depth <= 4, <= 40 nodes, all 10 composites and all their modes, leaves Function succ/fail(+case tag), Sleep, Dummy, '
         'timeouts on any node) driven by op scripts: start, then passes / clock steps / control calls (single, paired, deferred with runNext) and '
         'emits on dummy leaves; plus exhaustive placement of one (thorough: two) control calls over all passes of small trees; plus Parallel trees with pause at pass i and resume / resume+pause / stop / reset start at every pass j >= i (tags par+pause par+resume par+stop par+reset par-paused), timeouts expiring in the same pass as a child finishes next to the schedules where they do not (tag tmo-race), control-free Parallel-over-leaves runs of 0-8 children; non-trivial = the root '
         'delivered a finish or block notification on a tree of >= 3 nodes, or a result was held back / replayed, or a timeout fired; distinct = distinct op text')
@@ -481,8 +484,100 @@ def gen_anc(quick):
                            'do resume', 'pass', 'adv 5', 'pass', 'do stop', 'pass', 'do reset start', 'pass', 'pass', 'adv 5', 'pass', 'pass']
                     yield ops
 
+# ---- round 10: re-entrant restart (reset + start of the root) from inner final callbacks / function bodies, for EVERY composite kind,
+# compared with the run of the freshly built tree ("a reset tree behaves like a freshly built one" on the real code: ops mark / cmpfresh)
+def tree_ids(tree):
+    """(function leaf ids, composite ids, dummy ids) of a tree text, preorder ids as in harness and driver"""
+    toks = tree.split()
+    ids, fn, asm, dum = 0, [], [], []
+    for i, tk in enumerate(toks):
+        if tk in ('(', ')'): continue
+        if i > 0 and toks[i - 1] == '(':
+            asm.append(ids)
+        elif tk.startswith('F'):
+            fn.append(ids)
+        elif tk.startswith('D'):
+            dum.append(ids)
+        ids += 1
+    return fn, asm, dum
+
+
+RESTART_KINDS = [
+    # every composite kind over composite children (whose final callbacks make the call-outs), F and D leaves only: the end state of an
+    # emit-free run does not depend on the schedule
+    '( seq:all ( seq:all Fs ) ( seq:all Fs D ) Fs )', '( seq:anyf ( cmp Fs ) ( wr:i ( seq:all D ) ) )',
+    '( par:anys ( seq:all D ) D ( seq:all Fs D ) )', '( par:anyf ( seq:all D ) ( seq:all Fs D ) D )', '( par:all ( seq:all D ) ( cmp Fs ) D )',
+    '( par:anyf Fs Fs D )', '( par:anys Ff ( seq:all Ff ) D )', '( par:all ( par:anys ( seq:all D ) D ) D )',
+    '( ife:tt ( seq:all Fs ) ( seq:all D ) Ff )', '( ife:ft ( seq:all Ff ) ( seq:all Fs D ) )', '( ift ( seq:all Fs ) ( seq:all Fs D ) )',
+    '( ift ( seq:all Ff ) Fs ( seq:all Fs ) ( cmp D ) )', '( sw:d ( seq:all Fs:0 ) ( seq:all Fs D ) Fs )', '( sw:n ( seq:all Fs:1 ) Fs ( seq:all D ) )',
+    '( loop:uf ( seq:all Fs Ff ) )', '( loop:us ( seq:all Fs D ) )', '( lif:t ( seq:all Ff ) Fs )', '( lif:f ( seq:all Fs ) ( seq:all D ) )',
+    '( rep:3:nb ( seq:all Fs ) )', '( rep:3:nb Fs )', '( rep:4:bf Fs )', '( rep:2:bf ( seq:all Fs D ) )', '( rep:2:nb ( par:all Fs Fs ) )',
+    '( wr:i ( seq:all Fs D ) )', '( wr:n ( par:anys ( seq:all D ) D ) )', '( cmp ( seq:all Fs D ) )', '( cmp ( par:anyf ( seq:all D ) D ) )',
+    # ended by their own timeout while a composite child is under way
+    '( seq:all@0 ( seq:all D ) Fs )', '( par:all@0 ( seq:all D ) D )', '( par:anys@1 ( seq:all D ) ( seq:all D ) )', '( ife:tt@0 ( seq:all D ) Fs Fs )',
+    '( ift@0 ( seq:all D ) Fs )', '( sw:d@0 ( seq:all D ) Fs Fs )', '( loop:us@0 ( seq:all D ) )', '( lif:t@0 ( seq:all D ) Fs )',
+    '( rep:2:nb@0 ( seq:all D ) )', '( wr:n@0 ( seq:all D ) )', '( cmp@0 ( seq:all D ) )',
+]
+RESTART_SCRIPTS = ['reset start', 'stop reset start']
+SETTLE_OPS = ['pass', 'adv 60', 'pass', 'pass', 'adv 60', 'pass', 'pass', 'adv 60', 'pass', 'pass']
+
+
+def restart_case(tree, icbs, trigger):
+    ops = ['tree ' + tree, 'do start'] + SETTLE_OPS + ['mark', 'do reset'] + icbs + ['do start', 'pass']
+    ops += [trigger] if trigger else []
+    return ops + SETTLE_OPS + ['cmpfresh']
+
+
+def gen_restart(quick):
+    """the root is reset and started again from inside a call-out of an inner node (final callback of every inner composite, body of
+    every function leaf - also at its second invocation), triggered by the natural end of the child, by a sibling ending its Parallel
+    parent, by the parent's timeout, by stop() from outside; `cmpfresh` compares the restarted run with the fresh run"""
+    for base in RESTART_KINDS:
+        for tree in (base, '( seq:all %s Fs )' % base, '( par:all %s D )' % base):
+            if quick and tree.startswith('( par:all (') and 'par' in base:
+                continue
+            fn, asm, dum = tree_ids(tree)
+            triggers = [None, 'do stop'] + ['do emit:%d:%s' % (d, x) for d in dum[:3] for x in 'sf']
+            for sc in RESTART_SCRIPTS:
+                icbs = [['icb final %d 0 %s' % (a, sc)] for a in asm if a != 0]
+                icbs += [['icb body %d 0 %s' % (f, sc)] for f in fn]
+                if sc == 'reset start':
+                    icbs += [['icb body %d 0 start' % f, 'icb body %d 0 %s' % (f, sc)] for f in fn]
+                    icbs += [['icb final %d 0 %s' % (a, sc), 'icb final %d 0 %s' % (b, sc)] for a in asm[1:2] for b in asm[2:3]]
+                for ic in icbs:
+                    for tg in triggers:
+                        yield restart_case(tree, ic, tg)
+
+
+def gen_restart_random(rng):
+    tree, n, dummies = gen_tree(rng, max_depth=rng.choice([2, 3, 4]), max_nodes=rng.choice([6, 10, 16]), p_tmo=0, leaves=rng.choice(['FFFD', 'FFD', 'FD']))
+    if any(h in tree for h in ('loop', 'lif', 'rep:0:', 'rep:1000')) or tree.count('rep:') > 1:      # no end state / nested counts: too long to settle
+        return None
+    fn, asm, dum = tree_ids(tree[5:])
+    icbs = []
+    for _ in range(rng.choice([1, 1, 2, 3])):
+        if fn and rng.random() < 0.5:
+            icbs.append('icb body %d 0 %s' % (rng.choice(fn), rng.choice(RESTART_SCRIPTS + ['start', 'reset start'])))
+        elif asm:
+            icbs.append('icb final %d 0 %s' % (rng.choice(asm), rng.choice(RESTART_SCRIPTS + ['reset start'])))
+    if not icbs:
+        return None
+    ops = [tree, 'do start'] + SETTLE_OPS + ['mark', 'do reset'] + icbs + ['do start']
+    for _ in range(rng.choice([1, 2, 4])):
+        r = rng.random()
+        if r < 0.4: ops.append('pass')
+        elif r < 0.8 and dum: ops.append('do emit:%d:%s' % (rng.choice(dum), rng.choice('sf')))
+        elif r < 0.9: ops.append('do stop')
+        else: ops.append('do pause resume')
+    return ops + SETTLE_OPS + ['passes 40', 'cmpfresh']       # a Repeat(5) over a few levels of synchronous children needs its passes
+
+
 def gen(rng, tier):
     quick = tier == 'quick'
+    yield from gen_restart(quick)
+    for _ in range(300 if quick else 3000):
+        c = gen_restart_random(rng)
+        if c: yield c
     yield from gen_width_sleep()
     yield from gen_width_repeat()
     yield from gen_long_loops(quick)
@@ -639,7 +734,7 @@ LEVEL_TEXT = ('Lean 4 theorems over an executable model of the action framework.
               'evaluates WF and the documented result (reference evaluator, all composites) on every visited state')
 LEVEL_NOTE = ('whole-tree "root result = documented meaning, exactly one finish notification, leaves called in the documented order" is PROVED through '
               'the deferred queue for trees of Sequence/IfElse/IfThen/Switch/Wrapper/Composite/Loop/LoopIf/Repeat(n>=1) over Function and Sleep leaves (C17_result_matches_doc_serial, '
-              'safety for every pass/clock sequence; C17_finishes_exactly_once, liveness: after cost(t)+1 big clock steps / passes in any fair schedule the trace IS the complete visit order + one finish, when the evaluator terminates; C17_loop_never_finishes: otherwise no finish notification ever; C17_skeleton_preserved for every op sequence), and for ParallelAction (all three modes, any number of children) over Function and Sleep leaves as the root (C17_result_matches_doc_par_leaves: all children called in child order inside start(), then none or exactly one finish (true,0) for every pass/clock sequence; C17_par_leaves_finishes_exactly_once: three big ops suffice, root Finished, nothing left Running/Pause; batch invariant PI kept by every runTask/fireOne in any order); round 9: C17_never_stuck_partial / C17_never_stuck_par_leaves (a Running root of the covered classes always waits for a queued task, an armed timer or a child under way, in every control-free run), C17_tree_inv_late (WF and its corollaries with late passes), C17_timeout_fires (any tree, any state: a firing timeout leaves the action Finished/fail with reason 1 queued and no descendant under way), C17_repeat_count_width / C17_sleep_deadline_width / C17_finish_time_fits (the ranges in which the Nat/Int values of the model are the C++ size_t / uint64 / int64-ns values, with counterexamples outside); OPEN: order of the calls of a non-terminating loop, Parallel nested below serial composites or over composite children, timeouts (C17_timeout_result_depends_on_pass_granularity: the result of a tree with a timeout depends on whether a loop pass runs between two deadlines, so the statement needs a schedule hypothesis) (all compared with the evaluator on '
+              'safety for every pass/clock sequence; C17_finishes_exactly_once, liveness: after cost(t)+1 big clock steps / passes in any fair schedule the trace IS the complete visit order + one finish, when the evaluator terminates; C17_loop_never_finishes: otherwise no finish notification ever; C17_skeleton_preserved for every op sequence), and for ParallelAction (all three modes, any number of children) over Function and Sleep leaves as the root (C17_result_matches_doc_par_leaves: all children called in child order inside start(), then none or exactly one finish (true,0) for every pass/clock sequence; C17_par_leaves_finishes_exactly_once: three big ops suffice, root Finished, nothing left Running/Pause; batch invariant PI kept by every runTask/fireOne in any order); round 9: C17_never_stuck_partial / C17_never_stuck_par_leaves (a Running root of the covered classes always waits for a queued task, an armed timer or a child under way, in every control-free run), C17_tree_inv_late (WF and its corollaries with late passes), C17_timeout_fires (any tree, any state: a firing timeout leaves the action Finished/fail with reason 1 queued and no descendant under way), C17_repeat_count_width / C17_sleep_deadline_width / C17_finish_time_fits (the ranges in which the Nat/Int values of the model are the C++ size_t / uint64 / int64-ns values, with counterexamples outside); round 10: visit(Parallel) = the children in child order (C17_result_matches_doc_par_leaves_visit), C17_batch_embed (one op of a parent is the op of its active child embedded, for ANY number of notifications in the batch, under BatchOk; AP is an instance); OPEN: order of the calls of a non-terminating loop, Parallel nested below serial composites or over composite children (remaining steps listed in Props.lean), timeouts (C17_timeout_result_depends_on_pass_granularity: the result of a tree with a timeout depends on whether a loop pass runs between two deadlines, so the statement needs a schedule hypothesis) (all compared with the evaluator on '
               'every control-free generated run for all composites); trace equivalence '
               'of a reset tree with a fresh one in general (proved: Clean + WF after reset, and C17_rerun_after_reset: covered class, second run without control calls, after any history); ActionExecutor: one-at-a-time, heads-only, highest-priority-first and callbacks-once proved; trusted: Lean kernel, '
               'hand-written model, harness, generator coverage (measured)')
